@@ -120,6 +120,14 @@ var props = map[string]*propSpec{
 		QuickBudget:    55 * time.Second,
 		ThoroughBudget: 20 * time.Minute,
 	},
+	"C15": {
+		Level: "exploration",
+		Rule: "the -race build of the simulator: every simulator entry point is //go:norace and brackets its hand-offs with RaceDisable/RaceEnable, so the serialised execution carries exactly the happens-before edges of the production primitives; family concurrent (2-8 RPCs with Header / Trailer / option targets read right after their completion signal, per-RPC cancel / deadline / early return, and a control goroutine doing Close / Stop / GracefulStop / InitiateShutdown / registry queries / a second Close at a random step) and family identity (accessors and in-place mutation) run under it; the same families also run in the plain build for panics and deadlocks; " +
+			"non-trivial = at least two RPCs ran; distinct = distinct schedule digests; a race report halts the worker (halt_on_error=1) and is attributed to the run in flight",
+		Families:       []famPlan{{Family: "concurrent", Weight: 3, Race: true}, {Family: "identity", Weight: 1, Race: true}, {Family: "concurrent", Weight: 1}},
+		QuickBudget:    50 * time.Second,
+		ThoroughBudget: 15 * time.Minute,
+	},
 	"C16": {
 		Level: "exploration",
 		Rule: "one run = one case from {raw client vs real server, raw server vs real client, application sends twice} x call shape x number of messages on the side in question (0-4) x chunking (1, 7, 16384 bytes, whole) x 0-2 messages after the half-close / close frame x network role x negotiated/legacy x schedule, followed by a fresh RPC on the same tunnel; " +
